@@ -14,7 +14,7 @@
    code is known to depart from the RFC (K_R2), which the check reports as a known finding. *)
 From Coq Require Import List NArith Bool Arith.
 Import ListNotations.
-Require Import V.Regex V.Parse V.ParseProofs V.PathSpec V.Splice V.Setters V.SetPath V.Reference V.C05Proofs V.Rfc V.ResolveProofs V.NormProofs V.ResolveProofs2 V.SetAuth V.SetScheme V.SymProofs V.ParentProofs V.ResolveProofs3 V.MergeProofs V.ResolveProofs4.
+Require Import V.Regex V.Parse V.ParseProofs V.PathSpec V.Splice V.Setters V.SetPath V.Reference V.C05Proofs V.Rfc V.ResolveProofs V.NormProofs V.ResolveProofs2 V.SetAuth V.SetScheme V.SymProofs V.ParentProofs V.ResolveProofs3 V.MergeProofs V.ResolveProofs4 V.Abnf V.BridgePaths V.C02Bridge V.ResolveValid.
 Local Open Scope nat_scope.
 
 Theorem C06_empty_path_branch_partial : forall (pb pr : parts) (s : str),
@@ -109,6 +109,18 @@ Theorem C06_resolve_total : forall (pb pr : parts) (s : str), wf_parts pb -> wf_
              (p_authority p' = p_authority pr \/ p_authority p' = p_authority pb).
 Proof. exact resolve_total. Qed.
 Print Assumptions C06_resolve_total.
+
+(* "the result is a valid URI/IRI of the base's family": at the level of the RFC grammar, resolving ANY URI reference
+   (IRI reference) against ANY URI (IRI) returns -- no panic, all five branches, no exclusion -- a string of the
+   URI-reference (IRI-reference) language *)
+Theorem C06_result_is_valid_URI : forall r b, L (IRI_reference U U) r -> L (IRI U U) b ->
+  exists t, resolve r b = Some t /\ L (IRI_reference U U) t.
+Proof. exact resolve_in_language_U. Qed.
+Print Assumptions C06_result_is_valid_URI.
+Theorem C06_result_is_valid_IRI : forall r b, L (IRI_reference I C02Bridge.P) r -> L (IRI I C02Bridge.P) b ->
+  exists t, resolve r b = Some t /\ L (IRI_reference I C02Bridge.P) t.
+Proof. exact resolve_in_language_I. Qed.
+Print Assumptions C06_result_is_valid_IRI.
 
 (* the 5.2.4 output is always a normal form: no ".", ".." only as a leading run of a relative path *)
 Theorem C06_rds_normal : forall ab l, normal ab (rds_segs ab l).
